@@ -179,9 +179,45 @@ func runBroken(cfg hx.Config, r *hx.Rand, meta *hx.Meta) error {
 		fmt.Fprintf(w, "(undef %s %d %s)\n", pl, i, o.Class)
 		meta.Count("undefined-argument")
 	}
+	// the same with the unresolved identifier at every position of every type former of the argument's type
+	formers := []string{"UndefT", "*UndefT", "[]UndefT", "[2]UndefT", "map[UndefT]int", "map[string]UndefT", "chan UndefT",
+		"struct{ F UndefT }", "func(UndefT)", "func() UndefT", "map[UndefT]UndefT", "[]map[UndefT][]int", "*struct{ M map[UndefT]bool }"}
+	type uform struct{ plugin, call string }
+	uforms := []uform{{"keys", "deriveKeys(x)"}, {"equal", "deriveEqual(x, x)"}, {"hash", "deriveHash(x)"}, {"gostring", "deriveGoString(x)"},
+		{"clone", "deriveClone(x)"}, {"compare", "deriveCompare(x, x)"}, {"sort", "deriveSort(x)"}, {"unique", "deriveUnique(x)"}, {"tuple", "deriveTuple(x, 1)"}}
+	nu := 0
+	for fi, fm := range formers {
+		for ui, uf := range uforms {
+			if cfg.Tier != "thorough" && (fi+ui)%3 != 0 && !(uf.plugin == "keys" && strings.HasPrefix(fm, "map[")) {
+				continue
+			}
+			src := fmt.Sprintf("package p\n\nfunc use(x %s) {\n\t%s\n}\n", fm, uf.call)
+			dir := filepath.Join(cfg.Work, fmt.Sprintf("uf%03d-%d", fi, ui))
+			o := RunFiles(cfg, dir, map[string]string{"u.go": src}, true)
+			os.RemoveAll(dir)
+			if o.Class == "harness-error" {
+				return fmt.Errorf("C09 harness: %s", o.Detail)
+			}
+			fmt.Fprintf(w, "(undef %s %d %s)\n", uf.plugin, 100+fi, o.Class)
+			meta.Count("undefined-type-in-argument")
+			nu++
+			if o.Class == "crash" || o.Class == "badfile" || o.Class == "ok" {
+				meta.AddDirect(hx.Direct{
+					Class:  "undefined-type-" + o.Class,
+					What:   fmt.Sprintf("%s with an argument of type %s (UndefT is not declared) ended with %s instead of a diagnostic", uf.call, fm, o.Class),
+					Files:  map[string]string{"u.go": src, "go.mod": "module p\n\ngo 1.24\n"},
+					Cmd:    "goderive .",
+					Output: o.Detail + "\n" + o.Out,
+				})
+			}
+		}
+	}
 	w.Flush()
 	f.Close()
 	meta.ObsFiles = append(meta.ObsFiles, obsPath)
+	meta.Packages += nu
+	meta.GoderiveRuns += nu
+	meta.Cases += nu
 	meta.Packages += len(cases) + len(Plugins)
 	meta.GoderiveRuns += len(cases) + len(Plugins)
 	meta.Cases += len(cases) + len(Plugins)
